@@ -16,6 +16,7 @@ import (
 	drivers "github.com/protobom/protobom/pkg/native/unserializers"
 	"github.com/protobom/protobom/pkg/sbom"
 	"github.com/protobom/protobom/pkg/storage"
+	"github.com/protobom/protobom/pkg/verifhook"
 )
 
 var (
@@ -41,6 +42,7 @@ func init() {
 func RegisterUnserializer(format formats.Format, u native.Unserializer) {
 	regMtx.Lock()
 	unserializers[format] = u
+	verifhook.Lin("reader.Register", string(format))
 	regMtx.Unlock()
 }
 
@@ -48,12 +50,14 @@ func RegisterUnserializer(format formats.Format, u native.Unserializer) {
 func UnregisterUnserializer(format formats.Format) {
 	regMtx.Lock()
 	delete(unserializers, format)
+	verifhook.Lin("reader.Unregister", string(format))
 	regMtx.Unlock()
 }
 
 func GetFormatUnserializer(format formats.Format) (native.Unserializer, error) {
 	regMtx.RLock()
 	unserializer, ok := unserializers[format]
+	verifhook.Lin("reader.Get", string(format))
 	regMtx.RUnlock()
 	if ok {
 		return unserializer, nil
